@@ -537,7 +537,66 @@ def sc_own_tables(fs: Any, k: int = 3):
     return [body(i) for i in range(k)], check
 
 
+def sc_bulk_load_vs_reader(fs: Any):
+    """write_pandas is one load (one COPY INTO in Snowflake), however the caller asks for it to be chunked: a reader
+    sees none of it or all of it."""
+    import pandas as pd
+
+    import fakesnow.fakes as fakes
+    cw, cr = fs.connect("db1", "s1"), fs.connect("db1", "s1")
+    cw.cursor().execute("CREATE TABLE LOADED (ID INT, AMOUNT INT)")
+    df = pd.DataFrame({"ID": list(range(6)), "AMOUNT": [10, 20, 30, 40, 50, 60]})
+    seen: list[Any] = []
+    res: list[Any] = []
+
+    def writer() -> None:
+        res.append(fakes.write_pandas(cw, df, "LOADED", chunk_size=2))
+
+    def reader() -> None:
+        for _ in range(4):
+            seen.append(cr.cursor().execute("SELECT COUNT(*), COALESCE(SUM(AMOUNT), 0) FROM LOADED").fetchall())
+
+    def check(env: core.Env, sched: Sched, name: str) -> None:
+        for s_ in seen:
+            env.count("cmp_reader_observation")
+            if s_ not in ([(0, 0)], [(6, 210)]):
+                env.witness(f"C19/{name}/half-loaded-dataframe-observed", f"reader saw {s_} trace={sched.trace}")
+        env.count("cmp_final_state")
+        if sched.errors[0] is None:
+            fin = core.raw_root(fs).cursor().execute("select count(*), sum(AMOUNT) from DB1.S1.LOADED").fetchall()
+            if fin != [(6, 210)] or not res or res[0][0] is not True or res[0][2] != 6:
+                env.witness(f"C19/{name}/final-state", f"{fin} result {res}")
+    return [writer, reader], check
+
+
+def sc_executemany_vs_update(fs: Any):
+    """executemany is its statements one after the other; a statement of another session on the same rows runs before,
+    between or after them - nobody fails, and every increment is there at the end."""
+    ca, cb = fs.connect("db1", "s1"), fs.connect("db1", "s1")
+    c0 = ca.cursor()
+    c0.execute("CREATE TABLE BAL (ID INT, V INT)")
+    c0.execute("INSERT INTO BAL VALUES (1, 0), (2, 0), (3, 0)")
+
+    def batch() -> None:
+        ca.cursor().executemany("UPDATE BAL SET V = V + %s WHERE ID = %s", [(1, 1), (1, 2), (1, 3)])
+
+    def other() -> None:
+        cur = cb.cursor()
+        cur.execute("UPDATE BAL SET V = V + 10 WHERE ID = 2")
+        cur.execute("UPDATE BAL SET V = V + 100 WHERE ID = 3")
+
+    def check(env: core.Env, sched: Sched, name: str) -> None:
+        env.count("cmp_final_state")
+        if sched.errors[0] is None and sched.errors[1] is None:
+            fin = sorted(core.raw_root(fs).cursor().execute("select ID, V from DB1.S1.BAL").fetchall())
+            if fin != [(1, 1), (2, 11), (3, 101)]:
+                env.witness(f"C19/{name}/lost-update", f"{fin} trace={sched.trace}")
+    return [batch, other], check
+
+
 SCENARIOS: dict[str, Callable] = {
+    "bulk-load-vs-reader": sc_bulk_load_vs_reader,
+    "executemany-vs-update-same-rows": sc_executemany_vs_update,
     "connect-same-db-schema": sc_connect_same,
     "connect-same-db-schema-x3": lambda fs: sc_connect_same(fs, 3),
     "connect-different-dbs": sc_connect_diff,
